@@ -52,11 +52,26 @@ Lemma row_ok_bounds spe t r :
   exists a m j x s ro d b,
     r_sizes r = [a; m; j; x; s; ro; d; b] /\
     a <= t_hi t - t_succ t + 2 /\ s <= ep spe (t_now t) - t_head t + 3 /\
-    ro <= spe + 1 /\ d <= max_slot_data /\ b <= bid_window + 1 /\ m = j + x /\
+    ro <= spe + 1 /\ d <= max_slot_data /\ m = j + x /\
     forall p, In p (r_probes r) -> p_has p = (p_job p || mem (p_slot p) (r_running r)).
 Proof.
   unfold row_ok. destruct (r_sizes r) as [|a [|m [|j [|x [|s [|ro [|d [|b [|? ?]]]]]]]]]; try discriminate.
   intro H. repeat (apply andb_prop in H as [H ?]).
   exists a, m, j, x, s, ro, d, b. repeat split; try lia.
   intros p Hp. rewrite forallb_forall in H0. specialize (H0 p Hp). apply Bool.eqb_prop in H0. exact H0.
+Qed.
+
+(* what P_b says about the cache of builder bids after every operation, whatever the requests were:
+   the statement of C20_bids_api_any_order on the observed slots *)
+Lemma bids_ok_bounds last prev ks x n :
+  bids_ok last prev ks x n = true ->
+  n = size ks /\
+  forall k, In k ks -> last <= k + bid_window /\ (In k prev \/ xreq x = Some k).
+Proof.
+  unfold bids_ok. intro H. apply andb_prop in H as [H Hf]. apply andb_prop in H as [Hn _].
+  split; [lia|]. intros k Hk. rewrite forallb_forall in Hf. specialize (Hf k Hk).
+  apply andb_prop in Hf as [H1 H2]. split; [lia|].
+  apply orb_prop in H2 as [H2|H2].
+  - left. unfold mem in H2. apply existsb_exists in H2 as [y [Hy He]]. apply N.eqb_eq in He. subst. exact Hy.
+  - right. destruct (xreq x) as [s|]; [|discriminate]. apply N.eqb_eq in H2. subst. reflexivity.
 Qed.
